@@ -181,6 +181,22 @@ def directed(rnd, specs, names, counter):
                 yield ('class', s['name']), inj, 'inject:' + key + '|' + ('extra' if spot in ('extra_key', '_yatiml_extra') else 'any-param') + '|' + spot
 
 
+        # (3) a parameter key given a second time with a tagged payload as value: the load must fail (or ignore it) without
+        #     constructing the payload -- whatever the parameter's type
+        for prm in s['params'][:3]:
+            if not any(kv[0].value == prm['name'] for kv in base.value):
+                continue
+            for p in mine[:2]:
+                counter[0] += 1
+                key = 'k%d' % counter[0]
+                b = encode.copy_tree(base)
+                inj = encode.copy_tree(b)
+                inj.value.append((loadcase.S(prm['name']), encode.copy_tree(p)))
+                _base_spots[key] = prm['name']
+                yield ('class', s['name']), b, 'base:' + key
+                yield ('class', s['name']), inj, 'inject:' + key + '|dup-param|' + prm['name']
+
+
 def stream(ctx):
     rnd = random.Random(ctx['seed'] * 19 + 404)
     counter = [0]
